@@ -230,7 +230,7 @@ def client(env, T, cid, rng, nops, W, H, mode, mon, other):
         # ---------------- ill-formed calls (C07 mode)
         if illp and rng.random() < illp:
             cls = rng.choice(("fresh", "wrong_kind", "other_proc", "own_pending", "own_used", "own_cancelled",
-                              "other_store", "cancel_unknown", "cancel_used", "cancel_cancelled", "cancel_other_store"))
+                              "other_store", "cancel_unknown", "cancel_used", "cancel_cancelled", "cancel_other_store", "cancel_wrong_kind"))
             side = rng.choice(("put", "get"))
             tok = None
             if cls == "fresh":
@@ -260,6 +260,11 @@ def client(env, T, cid, rng, nops, W, H, mode, mon, other):
                 tok = other.reserve_put(0) if side == "put" else other.reserve_get(0)
             elif cls == "cancel_unknown":
                 tok = env.event()
+            elif cls == "cancel_wrong_kind":
+                # a live (waiting or granted) token of the opposite kind, of any process, given to this side's cancel
+                opp = "get" if side == "put" else "put"
+                pool = [t for (t, c, s_) in H.tokens if s_ == opp and getattr(t, "_m", None) is not None and t._m.state in ("pending", "granted")]
+                tok = rng.choice(pool) if pool else None
             elif cls == "cancel_used":
                 pool = used_p if side == "put" else used_g
                 tok = rng.choice(pool) if pool else None
